@@ -105,6 +105,26 @@ def run(tier, seed, replay=None):
             d = harness.save_case(rep, r2, "g" + name)
             rep.violation("g" + name, {"case": "g" + name, "checker_lines": fl[:10], "gdl": prog.gdl(),
                                        "meaning": "under -g the unmapped code point must simply be absent from the class; the font's data differ"})
+    # witness of a known finding: under -g a pseudo-glyph whose real glyph the font lacks must not record a glyph the font
+    # does not have
+    import json as _json
+    import ttf as _ttf
+    wprog = gen.Prog()
+    wprog.nglyphs = 20
+    wprog.font, _g, wprog.cmap = _ttf.simple_font(20)
+    wprog.raw_gdl = ('#include "stddef.gdh"\ntable(glyph) cP = pseudo(unicode(0x4E00), 0xE000); cA = glyphid(3..6); cB = glyphid(7..10); endtable;\n'
+                     'table(sub) cA > cB; cP > cA; endtable;\n')
+    rw = harness.compile_cases(build, work, [("pseudo_missing_g", wprog)], extra_args=["-g"])[0]
+    if rw["rc"] == 0:
+        ow = common.run_grcv(["font %s/out.ttf" % rw["dir"], "dump silf", "dump glat"])
+        try:
+            sw, gw = _json.loads(ow[1]), _json.loads(ow[2])
+            badp = [(c, g, v) for c, g in sw["pseudoMap"] for a, v in gw["glat"]["glyphs"][g]["attrs"] if a == sw["attrPseudo"] and (v < 0 or v >= 20)]
+        except (ValueError, KeyError, IndexError):
+            badp = []
+        if badp:
+            rep.violation("pseudo_missing_g", {"gdl": wprog.raw_gdl, "options": ["-g"], "pseudo_map_entries_with_a_real_glyph_the_font_lacks": badp},
+                          signature="C17:pseudo-of-a-missing-glyph-under-g-records-the-bad-glyph-placeholder")
     rep.coverage.update({
         "programs": len(results) + 2 * len(mcases), "programs_accepted": len(acc), "programs_rejected": len(rej),
         "rejected_error_ids": harness.error_ids(rej), "pseudo_glyphs_checked": stats["pseudos"],
